@@ -210,6 +210,9 @@ func (x *Exec) callWrites(c *ssa.CallCommon, ws *WriteSet, visiting map[*ssa.Fun
 			x.addEffectSpec(e, ws)
 			return
 		}
+		if models[key] != nil {
+			return
+		}
 		if impl := x.P.uniqueImpl(c.Value.Type()); impl != nil {
 			if m := x.P.prog.LookupMethod(impl, c.Method.Pkg(), c.Method.Name()); m != nil {
 				ws.add(x.effectsRec(m, visiting))
@@ -439,6 +442,10 @@ func (x *Exec) modifiesKeys(m string) []string {
 	case strings.HasPrefix(m, "ghost."):
 		k := "G|" + strings.TrimPrefix(m, "ghost.")
 		x.keyInfo[k] = compInfo{sort: "Int"}
+		return []string{k}
+	case m == "ghostarr.serlen":
+		k := "G|serlen"
+		x.keyInfo[k] = compInfo{sort: "(Array Int " + x.sc.intSort() + ")"}
 		return []string{k}
 	case strings.HasPrefix(m, "ghostarr."):
 		k := "G|" + strings.TrimPrefix(m, "ghostarr.")
